@@ -10,7 +10,7 @@ CLAUSES = {1: "panicked / aborted / did not terminate", 2: "requested a buffer l
 SAMPLES = [("ArchiveTest_Mixed2.bin", "bin_le"), ("ArchiveTest_OnlyText.bin", "bin_le"), ("AssetBinary_Test.bin", "bin_le"),
            ("TextArchive_Test.bin", "bin_le"), ("TextArchive_Legacy_Test.bin", "bin_be"), ("ArcTest.arc", "arc"),
            ("FE9Arc.bin", "pack"), ("FE14Aset_Test.bin", "bin_le")]
-EXPECT_OK = {"pack-3": "pack", "pack-empty": "pack", "arc-padded": "arc", "arc-unpadded": "arc", "aset-small": "aset", "asset-small": "asset",
+EXPECT_OK = {"pack-3": "pack", "pack-4100": "pack", "pack-empty": "pack", "arc-padded": "arc", "arc-unpadded": "arc", "aset-small": "aset", "asset-small": "asset",
              "text-uni-le": "text_uni_le", "text-uni-be": "text_uni_be", "text-sjis-le": "text_sjis_le", "text-sjis-be": "text_sjis_be",
              "bin-mixed-le": "bin_le", "bin-mixed-be": "bin_be", "ArcTest.arc": "arc", "FE9Arc.bin": "pack", "FE14Aset_Test.bin": "aset",
              "AssetBinary_Test.bin": "asset", "TextArchive_Test.bin": "text_uni_le", "TextArchive_Legacy_Test.bin": "text_sjis_be"}
